@@ -1,5 +1,9 @@
 import ZarrsModel.Model.Conform
 import ZarrsModel.Lemmas.Conform
+import ZarrsModel.Lemmas.Inflate
+import ZarrsModel.Lemmas.ConformShard
+import ZarrsModel.Lemmas.ConformChunk
+import ZarrsModel.Lemmas.ConformArray
 /-
 C12 — stored data conforms to the Zarr specification in both directions.
 
@@ -15,43 +19,77 @@ open Zarrs Zarrs.Codec Zarrs.Inflate Zarrs.Conform
 def wfBytes (b : Bytes) : Prop := ∀ x ∈ b, x < 256
 def elemsOk (es : Nat) (xs : List Elem) : Prop := ∀ x ∈ xs, x.length = es ∧ wfBytes x
 
+/-- executable forms of the two predicates, used by the examples below -/
+private theorem wfBytes_of_all (b : Bytes) (h : b.all (· < 256) = true) : wfBytes b := by
+  intro x hx
+  simpa using List.all_eq_true.1 h x hx
+private theorem elemsOk_of_all (es : Nat) (xs : List Elem)
+    (h : xs.all (fun x => x.length == es && x.all (· < 256)) = true) : elemsOk es xs := by
+  intro x hx
+  have := List.all_eq_true.1 h x hx
+  simp only [Bool.and_eq_true, beq_iff_eq] at this
+  exact ⟨this.1, wfBytes_of_all x this.2⟩
+
 /-! ### DEFLATE and its containers -/
 
 /-- **stored blocks inflate to the data**, whatever follows the stream -/
 theorem inflate_stored (bs rest : Bytes) (hb : wfBytes bs) (hr : wfBytes rest) :
-    inflate (deflateStored bs ++ rest) = some (bs, rest) := by
-  sorry
+    inflate (deflateStored bs ++ rest) = some (bs, rest) :=
+  inflate_deflateStored bs rest hb hr
+
+example : wfBytes [1, 2, 255] ∧ wfBytes [7] ∧ inflate (deflateStored [1, 2, 255] ++ [7]) = some ([1, 2, 255], [7]) :=
+  have h1 : wfBytes [1, 2, 255] := by unfold wfBytes; decide
+  have h2 : wfBytes [7] := by unfold wfBytes; decide
+  ⟨h1, h2, inflate_stored _ _ h1 h2⟩
 
 /-- a DEFLATE flavour the reader inverts (a hypothesis of the layout theorems, proved for stored blocks) -/
 def DeflateOk (l : Layout) : Prop :=
   (∀ bs rest, wfBytes bs → wfBytes rest → inflate (deflateOf l bs ++ rest) = some (bs, rest)) ∧
   (∀ bs, wfBytes bs → wfBytes (deflateOf l bs))
 theorem deflateOk_stored (l : Layout) (h : l.deflate = 0) : DeflateOk l := by
-  sorry
+  have hd : deflateOf l = deflateStored := by simp [deflateOf, h]
+  refine ⟨?_, ?_⟩
+  · intro bs rest hb hr
+    rw [hd]
+    exact inflate_deflateStored bs rest hb hr
+  · intro bs hb
+    rw [hd]
+    exact deflateStored_wf bs hb
+
+example : DeflateOk { deflate := 0, gzipExtra := true, reverseInner := true, pad := 2 } := deflateOk_stored _ rfl
 
 /-- **gzip and zlib members read back**, with or without the optional gzip header fields -/
 theorem gunzip_gzip (l : Layout) (hl : DeflateOk l) (bs : Bytes) (hb : wfBytes bs) :
-    gunzip (gzipWith (deflateOf l) l.gzipExtra bs) = some bs := by
-  sorry
+    gunzip (gzipWith (deflateOf l) l.gzipExtra bs) = some bs :=
+  gunzip_gzipWith (deflateOf l) l.gzipExtra hl.1 bs hb
 theorem unzlib_zlib (l : Layout) (hl : DeflateOk l) (bs : Bytes) (hb : wfBytes bs) :
-    unzlib (zlibWith (deflateOf l) bs) = some bs := by
-  sorry
+    unzlib (zlibWith (deflateOf l) bs) = some bs :=
+  unzlib_zlibWith (deflateOf l) hl.1 bs hb
+
+/-- the hypotheses hold for a stored-block layout with the optional gzip header fields -/
+example : gunzip (gzipWith (deflateOf { gzipExtra := true }) true [1, 2, 3, 255]) = some [1, 2, 3, 255] ∧
+    unzlib (zlibWith (deflateOf { gzipExtra := true }) [1, 2, 3, 255]) = some [1, 2, 3, 255] :=
+  ⟨gunzip_gzip { gzipExtra := true } (deflateOk_stored _ rfl) _ (wfBytes_of_all _ (by decide)),
+   unzlib_zlib { gzipExtra := true } (deflateOk_stored _ rfl) _ (wfBytes_of_all _ (by decide))⟩
 example : gunzip (gzipWith deflateFixed true [1, 2, 3, 200, 255]) = some [1, 2, 3, 200, 255] ∧
-    unzlib (zlibWith deflateStored [9, 8]) = some [9, 8] := by
-  sorry
+    unzlib (zlibWith deflateStored [9, 8]) = some [9, 8] :=
+  fixed_example
 
 /-- **any chain of gzip and crc32c decodes what it encoded** -/
 theorem b2b_roundtrip (l : Layout) (hl : DeflateOk l) (cs : List B2BK) (b : Bytes) (hb : wfBytes b) :
-    b2bDec cs (b2bEnc l cs b) = some b := by
-  sorry
+    b2bDec cs (b2bEnc l cs b) = some b :=
+  (b2b_roundtrip' l (gzOk_of_deflOk l hl) cs b hb).1
+
+example : b2bDec [.gzip, .crc32c, .gzip] (b2bEnc { gzipExtra := true } [.gzip, .crc32c, .gzip] [5, 6, 7]) = some [5, 6, 7] :=
+  b2b_roundtrip { gzipExtra := true } (deflateOk_stored _ rfl) _ _ (wfBytes_of_all _ (by decide))
 
 /-! ### shards: every legal layout reads as the intended inner chunks -/
 
 /-- **a legal shard decodes to its chunks**, wherever the inner chunks lie, in whatever order, with whatever
 padding between them, and with the index at either end -/
 theorem legal_shard_decodes (c : Shard.Cfg) (v : Bytes) (chunks : List (Option Bytes))
-    (h : Shard.Legal c v chunks) : Shard.decode c true v = .ok chunks := by
-  sorry
+    (h : Shard.Legal c v chunks) : Shard.decode c true v = .ok chunks :=
+  legal_shard_decodes' c v chunks h
 
 /-- **the writer's placement is legal for every order/padding choice** -/
 theorem placeInner_legal (l : Layout) (c : Shard.Cfg) (chunks : List (Option Bytes)) (hn : chunks.length = c.nChunks)
@@ -59,8 +97,35 @@ theorem placeInner_legal (l : Layout) (c : Shard.Cfg) (chunks : List (Option Byt
     (hsmall : ((chunks.filterMap id).map (fun b => b.length + l.pad)).sum + Shard.indexSize c < Shard.sentinel) :
     let base := if c.indexAtEnd then 0 else Shard.indexSize c
     let (data, entries) := placeInner l base chunks
-    Shard.Legal c (if c.indexAtEnd then data ++ Shard.encodeIndex c entries else Shard.encodeIndex c entries ++ data) chunks := by
-  sorry
+    Shard.Legal c (if c.indexAtEnd then data ++ Shard.encodeIndex c entries else Shard.encodeIndex c entries ++ data) chunks :=
+  have _ := hb   -- not needed: the index words are produced by `w64`, the data is only sliced
+  placeInner_legal' l c chunks hn hsmall
+
+/-- example shard: a stored chunk, a missing chunk, a stored chunk; placed in reverse order with 2 bytes of padding -/
+private def exChunks : List (Option Bytes) := [some [1, 2, 3], none, some [4]]
+private def exLayout : Layout := { reverseInner := true, pad := 2 }
+private theorem exChunks_wf : ∀ ch ∈ exChunks, ∀ b, ch = some b → wfBytes b := by
+  intro ch hc b hb
+  simp only [exChunks, List.mem_cons, List.not_mem_nil, or_false] at hc
+  rcases hc with rfl | rfl | rfl <;> cases hb <;> exact wfBytes_of_all _ (by decide)
+
+/-- index at the end, with checksum -/
+example : Shard.Legal ⟨3, true, false, true⟩
+    ((placeInner exLayout 0 exChunks).1 ++ Shard.encodeIndex ⟨3, true, false, true⟩ (placeInner exLayout 0 exChunks).2)
+    exChunks :=
+  placeInner_legal exLayout ⟨3, true, false, true⟩ exChunks rfl exChunks_wf (by decide)
+/-- index at the start, big-endian -/
+example : Shard.Legal ⟨3, false, true, false⟩
+    (Shard.encodeIndex ⟨3, false, true, false⟩ (placeInner exLayout 48 exChunks).2 ++ (placeInner exLayout 48 exChunks).1)
+    exChunks :=
+  placeInner_legal exLayout ⟨3, false, true, false⟩ exChunks rfl exChunks_wf (by decide)
+example : (placeInner exLayout 0 exChunks).1 = [0xAA, 0xAA, 4, 0xAA, 0xAA, 1, 2, 3] ∧
+    (placeInner exLayout 0 exChunks).2 = [(5, 3), (Shard.sentinel, Shard.sentinel), (2, 1)] := by decide
+/-- so `legal_shard_decodes` applies to a layout the implementation never writes -/
+example : Shard.decode ⟨3, true, false, true⟩ true
+    ((placeInner exLayout 0 exChunks).1 ++ Shard.encodeIndex ⟨3, true, false, true⟩ (placeInner exLayout 0 exChunks).2) =
+    .ok exChunks :=
+  legal_shard_decodes _ _ _ (placeInner_legal exLayout ⟨3, true, false, true⟩ exChunks rfl exChunks_wf (by decide))
 
 /-! ### chunks and arrays -/
 
@@ -83,7 +148,43 @@ theorem chunk_roundtrip (l : Layout) (hl : DeflateOk l) (es : Nat) (hes : 0 < es
     (hc : Chain.ok shape c) (xs : List Elem) (hx : xs.length = prod shape) (hxe : elemsOk es xs)
     (hsmall : (chunkBody l fill shape c xs).length < Shard.sentinel) :
     chunkDec es fill shape c (chunkEnc l es fill shape c xs) = some xs := by
-  sorry
+  have _ := hpos   -- not needed: empty chunks round-trip too
+  have hc' : ChainOk shape c := by
+    refine ⟨hc.1, ?_⟩
+    have h2 := hc.2
+    cases ha : c.a2b with
+    | bytes big => trivial
+    | shard ishape inner idxBig idxCrc atEnd =>
+      rw [ha] at h2
+      exact ⟨h2.1, h2.2.1, h2.2.2.2⟩
+  exact chunk_roundtrip' l (gzOk_of_deflOk l hl) es hes fill hfill.1 hfill.2 shape c hc' xs hx hxe hsmall
+
+/-- example chunk: 2×3 elements of 2 bytes, transposed to 3×2, sharded into 1×2 inner chunks (the last one all fill,
+hence omitted) that are themselves transposed, big-endian, gzip+crc32c; placed in reverse order with 2 bytes of
+padding; index at the end, big-endian, with checksum; stored-block DEFLATE, gzip headers with optional fields -/
+private def exL : Layout := { deflate := 0, gzipExtra := true, reverseInner := true, pad := 2 }
+private def exL2 : Layout := { deflate := 0, gzipExtra := false, reverseInner := false, pad := 0 }
+private def exChain : Chain :=
+  { transposes := [[1, 0]],
+    a2b := .shard [1, 2] { transposes := [[1, 0]], big := true, b2b := [.gzip, .crc32c] } true true true,
+    b2b := [.crc32c, .gzip] }
+private def exXs : List Elem := [[1, 0], [2, 0], [0, 0], [4, 1], [5, 255], [0, 0]]
+private theorem exChain_ok : Chain.ok [2, 3] exChain := by
+  simp only [Chain.ok, ordersOk, exChain]
+  decide
+example : encodedShape [2, 3] exChain.transposes = [3, 2] := by decide
+example : chunkDec 2 [0, 0] [2, 3] exChain (chunkEnc exL 2 [0, 0] [2, 3] exChain exXs) = some exXs :=
+  chunk_roundtrip exL (deflateOk_stored _ rfl) 2 (by decide) [0, 0] ⟨rfl, wfBytes_of_all _ (by decide)⟩ [2, 3]
+    (by decide) exChain exChain_ok exXs (by decide) (elemsOk_of_all _ _ (by decide)) (by decide +kernel)
+/-- the two layouts give different bytes -/
+example : (chunkEnc exL 2 [0, 0] [2, 3] exChain exXs).length = 212 ∧
+    (chunkEnc exL2 2 [0, 0] [2, 3] exChain exXs).length = 190 := by decide +kernel
+/-- `bytes` instead of a shard -/
+example : chunkDec 2 [0, 0] [2, 3] ⟨[[1, 0], [1, 0]], .bytes true, [.gzip]⟩
+    (chunkEnc exL 2 [0, 0] [2, 3] ⟨[[1, 0], [1, 0]], .bytes true, [.gzip]⟩ exXs) = some exXs :=
+  chunk_roundtrip exL (deflateOk_stored _ rfl) 2 (by decide) [0, 0] ⟨rfl, wfBytes_of_all _ (by decide)⟩ [2, 3]
+    (by decide) _ ⟨by simp only [ordersOk]; decide, trivial⟩ exXs (by decide) (elemsOk_of_all _ _ (by decide))
+    (by decide +kernel)
 
 /-- the reader does not depend on the layout: two encodings of the same chunk under different choices decode to
 the same elements -/
@@ -93,13 +194,29 @@ theorem chunk_layout_independent (l1 l2 : Layout) (h1 : DeflateOk l1) (h2 : Defl
     (hs1 : (chunkBody l1 fill shape c xs).length < Shard.sentinel)
     (hs2 : (chunkBody l2 fill shape c xs).length < Shard.sentinel) :
     chunkDec es fill shape c (chunkEnc l1 es fill shape c xs) = chunkDec es fill shape c (chunkEnc l2 es fill shape c xs) := by
-  sorry
+  rw [chunk_roundtrip l1 h1 es hes fill hfill shape hpos c hc xs hx hxe hs1,
+    chunk_roundtrip l2 h2 es hes fill hfill shape hpos c hc xs hx hxe hs2]
+
+example : chunkDec 2 [0, 0] [2, 3] exChain (chunkEnc exL 2 [0, 0] [2, 3] exChain exXs) =
+    chunkDec 2 [0, 0] [2, 3] exChain (chunkEnc exL2 2 [0, 0] [2, 3] exChain exXs) :=
+  chunk_layout_independent exL exL2 (deflateOk_stored _ rfl) (deflateOk_stored _ rfl) 2 (by decide) [0, 0]
+    ⟨rfl, wfBytes_of_all _ (by decide)⟩ [2, 3] (by decide) exChain exChain_ok exXs (by decide)
+    (elemsOk_of_all _ _ (by decide)) (by decide +kernel) (by decide +kernel)
 
 /-- **V2 chunks**: C or F order, either byte order, compressor none/zlib/gzip -/
 theorem v2_chunk_roundtrip (l : Layout) (hl : DeflateOk l) (a : V2) (hes : 0 < a.es) (hpos : ∀ d ∈ a.chunk, 0 < d)
     (xs : List Elem) (hx : xs.length = prod a.chunk) (hxe : elemsOk a.es xs) :
-    a.chunkDec (a.chunkEnc l xs) = some xs := by
-  sorry
+    a.chunkDec (a.chunkEnc l xs) = some xs :=
+  have _ := hpos   -- not needed
+  v2_chunk_roundtrip' l hl a hes xs hx hxe
+
+/-- example V2 array: 3×4 elements of 2 bytes in 2×3 chunks (ragged edges), Fortran order, big-endian, zlib -/
+private def exV2 : V2 :=
+  { shape := [3, 4], chunk := [2, 3], es := 2, big := true, fill := [0, 0], fOrder := true, sep := '.', comp := .zlib,
+    path := "/a/b".toList }
+example : exV2.chunkDec (exV2.chunkEnc exL exXs) = some exXs :=
+  v2_chunk_roundtrip exL (deflateOk_stored _ rfl) exV2 (by decide) (by decide) exXs (by decide)
+    (elemsOk_of_all _ _ (by decide))
 
 def V3.ok (a : V3) : Prop :=
   0 < a.es ∧ a.fill.length = a.es ∧ wfBytes a.fill ∧ a.chunk.length = a.shape.length ∧ (∀ d ∈ a.chunk, 0 < d) ∧
@@ -112,13 +229,43 @@ theorem v3_array_roundtrip (l : Layout) (hl : DeflateOk l) (a : V3) (ha : V3.ok 
     (hsmall : ∀ c ∈ boxIndices (gridOf a.shape a.chunk),
       (chunkBody l a.fill a.chunk a.chain (subBox a.shape a.chunk xs c a.fill)).length < Shard.sentinel) :
     a.read (a.write l xs) = some xs := by
-  sorry
+  obtain ⟨hes, hfl, hfw, hr, hpos, hc, hsep⟩ := ha
+  exact array_roundtrip a.shape a.chunk hr hpos a.fill xs hx a.key
+    (key_inj a.path a.keyEnc a.sep hsep _)
+    (chunkEnc l a.es a.fill a.chunk a.chain) (chunkDec a.es a.fill a.chunk a.chain)
+    (fun c hcm => chunk_roundtrip l hl a.es hes a.fill ⟨hfl, hfw⟩ a.chunk hpos a.chain hc _
+      (subBox_length _ _ _ _ _) (subBox_ok a.es a.fill hfl hfw a.shape a.chunk xs hxe c) (hsmall c hcm))
+
+/-- example V3 array: 3×4 elements of 2 bytes in 2×3 chunks (ragged edges; the chunk (1,1) is all fill and not
+stored), the example chain above, `default` keys with `/` under the node `/a/b` -/
+private def exV3 : V3 :=
+  { shape := [3, 4], chunk := [2, 3], es := 2, fill := [0, 0], keyEnc := .default, sep := '/', chain := exChain,
+    path := "/a/b".toList }
+private def exArr : List Elem :=
+  [[1, 0], [2, 0], [3, 0], [4, 0], [5, 0], [6, 0], [7, 0], [8, 255], [9, 0], [10, 0], [11, 0], [0, 0]]
+private theorem exV3_ok : V3.ok exV3 :=
+  ⟨by decide, rfl, wfBytes_of_all _ (by decide), rfl, by decide, exChain_ok, Or.inl rfl⟩
+example : exV3.read (exV3.write exL exArr) = some exArr :=
+  v3_array_roundtrip exL (deflateOk_stored _ rfl) exV3 exV3_ok exArr (by decide) (elemsOk_of_all _ _ (by decide))
+    (by decide +kernel)
+example : (exV3.write exL exArr).map (·.1) = ["a/b/c/0/0".toList, "a/b/c/0/1".toList, "a/b/c/1/0".toList] := by
+  decide +kernel
 
 theorem v2_array_roundtrip (l : Layout) (hl : DeflateOk l) (a : V2) (hes : 0 < a.es)
     (hfill : a.fill.length = a.es ∧ wfBytes a.fill) (hr : a.chunk.length = a.shape.length)
     (hpos : ∀ d ∈ a.chunk, 0 < d) (hsep : a.sep = '/' ∨ a.sep = '.') (xs : List Elem)
     (hx : xs.length = prod a.shape) (hxe : elemsOk a.es xs) :
-    a.read (a.write l xs) = some xs := by
-  sorry
+    a.read (a.write l xs) = some xs :=
+  array_roundtrip a.shape a.chunk hr hpos a.fill xs hx a.key
+    (key_inj a.path .v2 a.sep hsep _)
+    (a.chunkEnc l) a.chunkDec
+    (fun c _ => v2_chunk_roundtrip l hl a hes hpos _
+      (subBox_length _ _ _ _ _) (subBox_ok a.es a.fill hfill.1 hfill.2 a.shape a.chunk xs hxe c))
+
+example : exV2.read (exV2.write exL exArr) = some exArr :=
+  v2_array_roundtrip exL (deflateOk_stored _ rfl) exV2 (by decide) ⟨rfl, wfBytes_of_all _ (by decide)⟩ rfl
+    (by decide) (Or.inr rfl) exArr (by decide) (elemsOk_of_all _ _ (by decide))
+example : (exV2.write exL exArr).map (·.1) = ["a/b/0.0".toList, "a/b/0.1".toList, "a/b/1.0".toList] := by
+  decide +kernel
 
 end Zarrs.C12
